@@ -374,6 +374,11 @@ for _n, _s, _c, _t in _C15:
       what=f"cancel() against a machine in state {_s} that holds a permit: answered exactly once; if Ok, the destination of a scheduled policy got exactly one Cancelled notification (none without destination / policy); nothing enqueued; the permit is returned", bounds=f"state {_s}; one cancel command", functions=["state::PolicyState::cancel (whole body; awaits polled once)", "state::send_cancel (whole body)"], panic_prop="C15", stubs=[RS], est_gb=3)
 
 
+for _o in ("with", "without"):
+    H("state", f"c15_task_cancel_arm_{_o}_destination", needs_segment=["sc_task_cancel_arm", "sc_send_cancel"],
+      what="the spawned MPC task when the cancel notification wins its select!: exactly one Cancelled notification if there is a destination, the acknowledgement towards cancel() is given only AFTER that notification and exactly once", bounds=f"policy {_o} output destination; tokio::sync::Notify is the real one", functions=["state::PolicyState::run (cancel arm of the task's select! and what follows the select!)", "state::send_cancel (whole body)"], panic_prop="C15", stubs=[RS], est_gb=2)
+
+
 def by_prefix(*prefixes, tier=None):
     return [h for n, h in ALL.items() if any(n.startswith(p) for p in prefixes) and (tier is None or h["tier"] == tier)]
 
@@ -560,12 +565,12 @@ PROPS["C17"] = dict(
 PROPS["C15"] = dict(
     level="model_checking",
     level_text="Bounded model checking of (a) cancel() as a single command against a machine in each state without a running MPC task (Init, ValidateRequested, AwaitingValidation, Validated, SendingConstsCompleted, Running; whole body of cancel() and send_cancel() cut, awaits polled once): answered exactly once, and once it answers Ok the destination of a scheduled policy has been sent exactly one Cancelled notification, nothing is enqueued, the machine and its permit are gone; (b) one schedule point on tokio's real Notify: the arm of cancel() for state Executing, cut from the async function on every run (await = one poll, the cut stops at a pending await), run against an MPC task that has been spawned but not polled yet - cancel() neither completes nor answers Ok before the task acknowledges, and the cancel notification is not lost (the task finds it when it registers); after the acknowledgement cancel() answers Ok exactly once.",
-    level_note="Partial: cancel as ONE command from a quiescent machine per state, plus ONE schedule point in Executing (cancel processed right after the MPC task was spawned - the race the property text names) and its counterpart. NOT covered: state SendingConsts (awaits the constants task), cancel racing with a handler or task in flight, the task side (tokio::select!), 'exactly one notification, nothing afterwards' and the permit as whole-run statements, multi-threaded runtimes. " + SEG,
+    level_note="Partial: cancel as ONE command from a quiescent machine per state, plus ONE schedule point in Executing (cancel processed right after the MPC task was spawned - the race the property text names) and its counterpart. Also the task's side of a cancellation (cancel arm of its select! + what follows): notification first, acknowledgement after, once. NOT covered: state SendingConsts (awaits the constants task), cancel racing with a handler in flight, the other arm of the select! (e.g. a cancel that arrives while the finished task is still enqueuing Stop), the task side (tokio::select!), 'exactly one notification, nothing afterwards' and the permit as whole-run statements, multi-threaded runtimes. " + SEG,
     explanation="Kani/CBMC on the Executing arm of cancel() with tokio::sync::Notify compiled in.",
     outside="all other interleavings of cancel with the actor and the MPC task.",
     assumptions=[FMT, TRACING, ANS, "await = one poll with a no-op waker; a pending await ends the cut (EnvTry)"],
     harnesses=by_prefix("c15_"),
-    segments=["sc_cancel_executing", "sc_cancel", "sc_send_cancel"],
+    segments=["sc_cancel_executing", "sc_cancel", "sc_send_cancel", "sc_task_cancel_arm"],
 )
 PROPS["C13"] = dict(
     level="model_checking",
